@@ -57,6 +57,7 @@ type recorder struct {
 	calls   int
 	total   int
 	payload []byte
+	mpay    []byte
 	docs    [][]byte
 	metas   []frac.MetaData
 	err     string
@@ -89,6 +90,7 @@ func (c *recorder) StoreDocuments(_ context.Context, total int, docs, metas []by
 		c.err = "metas block: " + err.Error()
 		return nil
 	}
+	c.mpay = append([]byte{}, m...)
 	for len(m) > 0 {
 		if len(m) < 4 {
 			c.err = "metas payload: short length prefix"
@@ -216,6 +218,8 @@ type observation struct {
 	Sizes   []uint32 `json:"sizes"`
 	payload []byte
 	stored  []stored
+	mpay    []byte
+	metas   []frac.MetaData
 }
 
 type record struct {
@@ -293,7 +297,7 @@ func (e *env) serve(rq *request, emit func(record)) *observation {
 	if !ft.seen.IsZero() && (ft.seen.Before(t0) || ft.seen.After(t1)) {
 		emit(record{Kind: "viol", Fp: "request-time-not-now", What: "the handler's request time is outside the wall-clock bracket of the call", Req: rq})
 	}
-	o := &observation{Status: w.Code, Resp: w.Body.String(), Calls: rec.calls, Total: rec.total, payload: rec.payload}
+	o := &observation{Status: w.Code, Resp: w.Body.String(), Calls: rec.calls, Total: rec.total, payload: rec.payload, mpay: rec.mpay, metas: rec.metas}
 	if len(o.Resp) > 300 {
 		o.Resp = o.Resp[:300] + "..."
 	}
@@ -969,6 +973,98 @@ func tailExact(body []byte, B int) (oversize, exact, edge bool) {
 	return true, len(tail)-pos == 0, edge
 }
 
+// ---------------------------------------------------------------- meta codec (real MarshalBinaryTo / UnmarshalBinary)
+
+func metaCoq(m frac.MetaData) string {
+	var ts []string
+	for _, t := range m.Tokens {
+		ts = append(ts, "("+hxb(t.Key)+", "+hxb(t.Value)+")")
+	}
+	return fmt.Sprintf("(Build_meta %d%%N %d%%N %d%%N [%s])", uint64(m.ID.MID), uint64(m.ID.RID), m.Size, strings.Join(ts, "; "))
+}
+
+func randBytes(r *rng.R, n int) []byte {
+	b := make([]byte, n)
+	for i := range b {
+		switch r.Intn(4) {
+		case 0:
+			b[i] = byte(r.Intn(256))
+		case 1:
+			b[i] = 0
+		default:
+			b[i] = "abz_AZ09:."[r.Intn(10)]
+		}
+	}
+	return b
+}
+
+func randU64(r *rng.R) uint64 {
+	switch r.Intn(5) {
+	case 0:
+		return 0
+	case 1:
+		return ^uint64(0)
+	case 2:
+		return uint64(r.Intn(1 << 16))
+	}
+	return r.U64()
+}
+
+// real UnmarshalBinary under recover: "KOk m" | "KErr" | "KPanic"
+func realUnmarshal(b []byte) (cls string, m frac.MetaData) {
+	defer func() {
+		if recover() != nil {
+			cls = "KPanic"
+		}
+	}()
+	if err := m.UnmarshalBinary(b); err != nil {
+		return "KErr", m
+	}
+	return "(KOk " + metaCoq(m) + ")", m
+}
+
+func metaCases(r *rng.R, n int, emit func(record)) {
+	for i := 0; i < n; i++ {
+		m := frac.MetaData{ID: seq.ID{MID: seq.MID(randU64(r)), RID: seq.RID(randU64(r))}, Size: uint32(randU64(r))}
+		for k := r.Intn(6); k > 0; k-- {
+			kl, vl := r.Intn(13), r.Intn(13)
+			if r.Chance(1, 20) {
+				vl = r.Range(250, 300) // length needs its second byte
+			}
+			m.Tokens = append(m.Tokens, frac.MetaToken{Key: randBytes(r, kl), Value: randBytes(r, vl)})
+		}
+		src := metaCoq(m)
+		b := m.MarshalBinaryTo(nil)
+		if r.Chance(1, 4) { // appended to a non-empty destination, as the ingestor does
+			pre := randBytes(r, r.Intn(9))
+			b = m.MarshalBinaryTo(append([]byte{}, pre...))[len(pre):]
+		}
+		cls, _ := realUnmarshal(append([]byte{}, b...))
+		in := map[string]any{"meta": src, "bytes_hex": hex.EncodeToString(b)}
+		inj, _ := json.Marshal(in)
+		emit(record{Kind: "case", Coq: fmt.Sprintf("CMeta %s %s %s", src, hxb(b), cls), Class: "meta-codec", Nontrivial: len(m.Tokens) > 0,
+			Req: &request{Class: "meta-codec", BodyText: string(inj)}, Obs: &observation{Resp: cls}})
+		// damaged encodings: truncation, header corruption, trailing bytes
+		d := append([]byte{}, b...)
+		what := ""
+		switch r.Intn(4) {
+		case 0, 1:
+			d = d[:r.Intn(len(d))]
+			what = "truncated"
+		case 2:
+			d[r.Intn(4)] ^= byte(1 << r.Intn(8))
+			what = "header"
+		default:
+			d = append(d, randBytes(r, r.Range(1, 9))...)
+			what = "trailing"
+		}
+		cls2, _ := realUnmarshal(append([]byte{}, d...))
+		inj2, _ := json.Marshal(map[string]any{"bytes_hex": hex.EncodeToString(d), "damage": what})
+		emit(record{Kind: "case", Coq: fmt.Sprintf("CMetaBytes %s %s", hxb(d), cls2), Class: "meta-bytes-" + what, Nontrivial: true,
+			Req: &request{Class: "meta-bytes", BodyText: string(inj2)}, Obs: &observation{Resp: cls2}})
+	}
+}
+
 // ---------------------------------------------------------------- worker
 
 type workerSpec struct {
@@ -1007,6 +1103,15 @@ func runOne(e *env, rq *request, feat map[string]bool, emit func(record)) {
 	}
 	nontrivial := len(feat) > 0 && bytes.Count(rq.body, []byte{'\n'}) >= 2
 	emit(record{Kind: "case", Coq: caseTerm(e, rq, o, table), Class: rq.Class, Nontrivial: nontrivial, Req: rq, Obs: o})
+	if o.Calls == 1 && len(o.mpay) > 0 && len(o.mpay) < 1500 && len(rq.body)%3 == 0 {
+		// the metas payload of the real ingest path (marshalAppendMeta) against the codec model
+		var ms []string
+		for _, m := range o.metas {
+			ms = append(ms, metaCoq(m))
+		}
+		emit(record{Kind: "case", Coq: fmt.Sprintf("CMetaPayload %s [%s]", hxb(o.mpay), strings.Join(ms, "; ")),
+			Class: "metas-payload", Nontrivial: len(o.metas) > 1, Req: rq, Obs: &observation{Status: o.Status, Created: o.Created, Calls: 1, Total: o.Total, Docs: o.Docs}})
+	}
 }
 
 func worker(spec workerSpec, out io.Writer) {
@@ -1018,8 +1123,12 @@ func worker(spec workerSpec, out io.Writer) {
 			panic(err)
 		}
 	}
-	e := newEnv(spec.MaxDoc)
 	r := rng.New(spec.Seed)
+	if spec.MaxDoc == 0 {
+		metaCases(r, spec.N, emit)
+		return
+	}
+	e := newEnv(spec.MaxDoc)
 	for i := 0; i < spec.N; i++ {
 		mode := spec.Modes[i%len(spec.Modes)]
 		g := &gen{r: r, e: e, feat: map[string]bool{}}
@@ -1061,6 +1170,7 @@ func plan(tier string, seed uint64) []workerSpec {
 		{7, 300 * k, fr, 0}, {16, 300 * k, fr, 0}, {17, 300 * k, fr, 0}, {23, 250 * k, fr, 0}, {32, 300 * k, fr, 0},
 		{64, 450 * k, mix, 0}, {100, 400 * k, mix, 0}, {200, 500 * k, tm, 0}, {1024, 100 * k, mix, 0},
 		{128, 60 * k, sp, 0}, {20, 30 * k, []string{"oversize-tail-exact"}, 0},
+		{0, 200 * k, nil, 0}, // meta codec
 	}
 	if tier == "thorough" {
 		specs = append(specs, workerSpec{4096, 300, mix, 0}, workerSpec{33, 300 * k, fr, 0}, workerSpec{257, 200 * k, mix, 0})
@@ -1091,6 +1201,18 @@ func main() {
 			rq.body, _ = hex.DecodeString(rq.BodyHex)
 			bw := bufio.NewWriter(os.Stdout)
 			enc := json.NewEncoder(bw)
+			if strings.HasPrefix(rq.Class, "meta-") {
+				// replay of a codec case: the real UnmarshalBinary on the recorded bytes
+				var in struct {
+					BytesHex string `json:"bytes_hex"`
+				}
+				json.Unmarshal([]byte(rq.BodyText), &in)
+				b, _ := hex.DecodeString(in.BytesHex)
+				cls, _ := realUnmarshal(append([]byte{}, b...))
+				enc.Encode(record{Kind: "case", Coq: fmt.Sprintf("CMetaBytes %s %s", hxb(b), cls), Class: rq.Class, Nontrivial: true, Req: &rq, Obs: &observation{Resp: cls}})
+				bw.Flush()
+				return
+			}
 			runOne(newEnv(rq.MaxDoc), &rq, map[string]bool{"replay": true}, func(rc record) { enc.Encode(rc) })
 			bw.Flush()
 			return
